@@ -402,7 +402,7 @@ func runWss(in wssIn) Sx {
 		return L(SBytes("listen-failed"))
 	}
 	defer plainL.Close()
-	ctx, cancel := context.WithTimeout(context.Background(), 10*time.Second)
+	ctx, cancel := context.WithTimeout(context.Background(), 40*time.Second)
 	defer cancel()
 	var mu sync.Mutex
 	established, authSeen, authTLS := false, false, false
@@ -490,8 +490,8 @@ func runWss(in wssIn) Sx {
 		addr = "ws://" + plainL.Addr().String() + "/x/0"
 	}
 	cfg := &xmpp.Config{
-		TransportConfiguration: xmpp.TransportConfiguration{Address: addr, Domain: srvDomain, ConnectTimeout: 3},
-		Jid:                    "user@" + srvDomain, Credential: xmpp.Password("secret"), Insecure: in.Insecure, ConnectTimeout: 3,
+		TransportConfiguration: xmpp.TransportConfiguration{Address: addr, Domain: srvDomain, ConnectTimeout: 10},
+		Jid:                    "user@" + srvDomain, Credential: xmpp.Password("secret"), Insecure: in.Insecure, ConnectTimeout: 10,
 	}
 	client, err := xmpp.NewClient(cfg, xmpp.NewRouter(), func(error) {})
 	if err != nil {
@@ -502,7 +502,7 @@ func runWss(in wssIn) Sx {
 	var cerr error
 	select {
 	case cerr = <-done:
-	case <-time.After(12 * time.Second):
+	case <-time.After(30 * time.Second):
 		return L(SBytes("connect-hung"))
 	}
 	if cerr == nil {
